@@ -2,9 +2,9 @@ SPEC = dict(
     props_file="Props/C27.v",
     level="proof",
     observers=[dict(cmd="obs_inval", imports=["Model.PsBase", "Model.PubSub"], case_type="PubSub.case", check="PubSub.check_case",
-                    n={"quick": 400, "thorough": 10000}, shard=50, timeout={"quick": 900, "thorough": 6000}),
+                    n={"quick": 300, "thorough": 10000}, shard=50, timeout={"quick": 900, "thorough": 6000}),
                dict(cmd="obs_dedicated", imports=["Model.PsBase", "Model.Dedicated"], case_type="Dedicated.case", check="Dedicated.check_case",
-                    n={"quick": 40, "thorough": 1500}, shard=20, timeout={"quick": 900, "thorough": 6000})],
+                    n={"quick": 30, "thorough": 1500}, shard=20, timeout={"quick": 900, "thorough": 6000})],
     search_factor=3,
     rule="obs_inval: (a) a caching client with OnInvalidations: cached reads, writes / FLUSHALL from another connection (real tracking pushes of "
          "the fake server), injected multi-key pushes, then Close or kill; ground truth = the invalidate pushes found in the bytes the client "
